@@ -363,6 +363,30 @@ impl AST {
                                 return;
                             }
                         };
+                        let placeholders = parts
+                            .iter()
+                            .filter(|p| matches!(p, TemplatePart::PlaceHolder(_)))
+                            .count();
+                        if placeholders > elems.len() {
+                            ops.push(
+                                Op::Val(Primitive::Str(
+                                    format!(
+                                        "Format string has {} placeholders but only {} arguments",
+                                        placeholders,
+                                        elems.len()
+                                    )
+                                    .into(),
+                                )),
+                                def.pos.clone(),
+                            );
+                            ops.push(Op::Bang, def.pos);
+                            return;
+                        }
+                        if parts.is_empty() {
+                            // An empty template renders as the empty string.
+                            ops.push(Op::Val(Primitive::Str("".into())), def.pos);
+                            return;
+                        }
                         // We need to push process these in reverse order for the
                         // vm to process things correctly;
                         elems.reverse();
@@ -403,6 +427,11 @@ impl AST {
                                 return;
                             }
                         };
+                        if parts.is_empty() {
+                            // An empty template renders as the empty string.
+                            ops.push(Op::Val(Primitive::Str("".into())), def.pos);
+                            return;
+                        }
                         parts.reverse();
                         let mut parts_iter = parts.drain(0..);
                         ops.push(Op::Noop, expr.pos().clone());
